@@ -2,6 +2,7 @@
 import Driver.TextOps
 import Driver.ParseOps
 import Driver.GenOps
+import Driver.BuildOps
 open Lean
 
 def handleLine (line : String) : String :=
@@ -17,6 +18,7 @@ def handleLine (line : String) : String :=
         else if ["parse", "c05", "c16", "sro", "find_fqn", "find_any", "ids_t", "ids_notations"].contains op then
           ParseOps.handle op j
         else if op.startsWith "portsel." || op.startsWith "cpp." then GenOps.handle op j
+        else if op == "build" || op.startsWith "build." then BuildOps.handle op j
         else .error s!"unknown op {op}"
       match r with
       | .ok out => out.compress
